@@ -83,6 +83,7 @@ def gen(seed, tier):
         'counter0': rng.choice([0, 10, 126, 127, 16382, 16383, 2**21 - 2, 2**31, 2**64 + 5]),
         'baker': False,
         'latency_ms': 0,
+        'block_delay_s': 8,
         'chain_name': rng.choice(['TEZOS_MAINNET', 'SANDBOXED_TEZOS']),
         'prebake': 1,
         'watch_only': rng.random() < 0.15,
@@ -91,6 +92,11 @@ def gen(seed, tier):
     if rng.random() < 0.2:
         # a chain whose protocol parameters differ from the stock ones (a sandbox with custom parameters, a future protocol)
         cfg['constants'] = {'hard_gas_limit_per_operation': rng.choice(['520000', '2000000', '4160000']), 'hard_storage_limit_per_operation': rng.choice(['60000', '30000'])}
+    if rng.random() < 0.2:
+        # a live chain: blocks arrive while a client call is in flight (slow link), and the same contract call costs a little more
+        # gas at every new head (its storage grows)
+        cfg.update(baker=True, block_delay_s=rng.choice([1, 2, 4]), latency_ms=rng.choice([300, 700, 1500]),
+                   gas_drift_milligas_per_block=rng.choice([0, 200_000, 1_500_000, 20_000_000]))
     if key != 'tz4' and rng.random() < 0.08:
         # boundary seeking: drive the chosen fee onto the 2-byte/3-byte boundary of the fee field (16383/16384)
         spec = rng.choice([{'kind': 'contract_call', 'arg': 5, 'entrypoint': 'increment'}, {'kind': 'transaction', 'dest': cs.KT, 'amount': 0, 'param_len': rng.choice([0, 50])},
@@ -167,7 +173,16 @@ def gen(seed, tier):
             steps.append({'op': 'sign', 'g': g})
             steps.append({'op': 'inject', 'g': g})
         elif path == 'send':
-            steps.append({'op': 'send', 'g': g, **({'kw': kw} if kw else {})})
+            st = {'op': 'send', 'g': g, **({'kw': kw} if kw else {})}
+            if rng.random() < 0.15:
+                # the node refuses the first injection (what it answers is its business); the caller may simply try again
+                st['faults'] = {'inj': {'f': 'reject', 'how': 'perm', 'kind': rng.choice(['permanent', 'branch', 'temporary']),
+                                        'err_id': rng.choice(['proto.024-PtTALLiN.gas_exhausted.operation', 'proto.024-PtTALLiN.gas_exhausted.block',
+                                                              'proto.024-PtTALLiN.storage_exhausted.operation', 'node.prevalidation.fees_too_low',
+                                                              'node.mempool.rejected', 'proto.024-PtTALLiN.contract.balance_too_low'])}}
+            steps.append(st)
+            if st.get('faults') and rng.random() < 0.6:
+                steps.append({'op': 'send', 'g': g, **({'kw': kw} if kw else {})})
         else:
             st = {'op': path, 'g': g, **({'kw': kw} if kw else {})}
             if rng.random() < 0.1:
